@@ -51,11 +51,6 @@ def layoutsOK : Bool → List HdrEntry → Bool
 /-- the pairs a header declares -/
 def declared (es : List HdrEntry) : List (Nat × Nat) := es.map fun e => (e.id, e.ofs)
 
-/-- strictly increasing -/
-def increasing : List Nat → Bool
-  | a :: b :: t => a < b && increasing (b :: t)
-  | _ => true
-
 /-! ## content -/
 
 /-- "the object located at offset o of the content": value with the span it occupies -/
